@@ -300,12 +300,41 @@ def run(tier):
         ninfile = rng.randint(1, len(vals) - 1)
         nm_ = "cellcol%d.ctb" % k
         txt = "\n".join(lines[:2 + ninfile]) + "\n"
-        ops = ["CHK " + nm_]
+        # (compiled, not yet used: a use would finalise it and refuse the additions)
+        ops = ["ADD %s %s" % (nm_, common.hexbytes("# compile without finalising")), "DUMP %s nofinal" % nm_, "RAWDUMP %s nofinal" % nm_]
         for l in lines[2 + ninfile:]:
             ops += ["ADD %s %s" % (nm_, common.hexbytes(l)), "DUMP %s nofinal" % nm_, "RAWDUMP %s nofinal" % nm_]
         ops += ["DUMP " + nm_, "RAWDUMP " + nm_]
         cases.append(common.Case("fix-" + nm_, ["HOOK arena 1", "TBL %s %s" % (nm_, common.hexbytes(txt))], ops,
-                                 {"kind": "fixed", "name": nm_, "text": txt + "# added at run time:\n" + "\n".join(lines[2 + ninfile:])}))
+                                 {"kind": "fixed", "nochk": True, "name": nm_, "text": txt + "# added at run time:\n" + "\n".join(lines[2 + ninfile:])}))
+    # ---- the display-table image grows at run time too (its own allocator and its own cache list): several hundred
+    # `display` rules over new characters, the image inspected again and again (seeded change C12-H re-pointed the cache
+    # entry after the comparison that finds it)
+    for k in range(1 if quick else 6):
+        nm_ = "dispgrow%d.ctb" % k
+        txt = "space \\s 0\nsign a 1\ndisplay b 12\n"
+        ops = ["ADD %s %s" % (nm_, common.hexbytes("# compile without finalising")), "DUMP %s nofinal" % nm_, "RAWDUMP %s nofinal" % nm_]
+        for j in range(900 if quick else rng.randint(900, 2500)):
+            ops.append("ADD %s %s" % (nm_, common.hexbytes("display \\x%04x %s" % (0x3000 + j, dots_of(0x8000 | (1 + (j * 7) % 0x7ffe))))))
+            if j % 150 == 149:
+                ops += ["DUMP %s nofinal" % nm_, "RAWDUMP %s nofinal" % nm_]
+        ops += ["DUMP " + nm_, "RAWDUMP " + nm_]
+        cases.append(common.Case("fix-" + nm_, ["HOOK arena 1", "TBL %s %s" % (nm_, common.hexbytes(txt))], ops,
+                                 {"kind": "fixed", "nochk": True, "name": nm_, "text": txt + "# + run-time display rules\n"}))
+    # ---- a rule offered after the table was used: it is refused; were it accepted (seeded change C12-G), a context rule over
+    # upper-case letters would sit in the bucket of its literal characters, where the case-folding lookup never looks
+    for k in range(2 if quick else 20):
+        nm_ = "late%d.ctb" % k
+        ups = rng.sample("ABCDEFGHIJKLMNOPQRSTUVWXYZ", 3)
+        txt = "space \\s 0\n" + "".join("lowercase %s %s\nbase uppercase %s %s\n" % (u.lower(), d, u, u.lower())
+                                          for u, d in zip(ups, ["1", "12", "14"])) + "always %s%s 1245\n" % (ups[0].lower(), ups[1].lower())
+        late = ["noback context \"%s%s\" @123456" % (ups[0], ups[1]), "noback context \"%s%s\"[\"%s\"] @1" % (ups[1], ups[2], ups[0].lower()),
+                "always %s%s 123" % (ups[2].lower(), ups[0].lower())]
+        ops = ["CHK " + nm_, "FWD %s 4 20 - 12 %s - -" % (nm_, common.wide(ups[0] + ups[1])), "DUMP " + nm_, "RAWDUMP " + nm_]
+        for l in late:
+            ops += ["ADD %s %s" % (nm_, common.hexbytes(l)), "DUMP " + nm_, "RAWDUMP " + nm_]
+        cases.append(common.Case("fix-" + nm_, ["HOOK arena 1", "TBL %s %s" % (nm_, common.hexbytes(txt))], ops,
+                                 {"kind": "fixed", "name": nm_, "text": txt + "# offered after use:\n" + "\n".join(late)}))
     # ---- generated tables
     ngen = 110 if quick else 16000
     kinds = ["onetoone", "f0", "multipass", "mixed", "extras", "extras"]
@@ -448,7 +477,7 @@ def run(tier):
                         {"script": c.setup + c.ops[:max(1, c.fault.get("op_index", 0) + 1)], "stderr": c.fault.get("stderr_tail", "")[-800:]})
             continue
         if kind != "additions":
-            if not c.out or not c.out[0].startswith("C 1"):
+            if not c.out or not (c.out[0].startswith("C 1") or (c.meta.get("nochk") and c.out[0].startswith("D 1"))):
                 dist["shipped_not_compilable" if kind == "shipped" else "generated_rejected"] += 1
                 continue
             dist["shipped_tables" if kind == "shipped" else "generated_tables"] += 1
